@@ -35,6 +35,8 @@ from ..evalexpr import evaluate, tables_equal, Unsupported
 from .common import fmt_diff, safe_call
 
 ID = "C13"
+CASE_TIMEOUT = 900
+CHUNK = 8
 RULE = ("state = (remainder family, target split, denominator brackets with "
         "exponents, numerator, prefactor, operation); non-trivial = the "
         "denominator has >= 1 bracket and the operation has something to do "
